@@ -209,6 +209,10 @@ def _float_literal(f):
 def _U(x):
     if isinstance(x, SX):
         return x.e
+    if hasattr(x, "_val") and hasattr(x, "device_id"):       # a 0-d AnyArray stored as an *element* of an object array (NumPy would unwrap a float)
+        x = x._val
+    if isinstance(x, np.ndarray) and x.ndim == 0:
+        return _U(x[()])
     if isinstance(x, (float, np.floating)):
         return _float_literal(float(x))
     if isinstance(x, (complex, np.complexfloating)):
